@@ -37,6 +37,50 @@ theorem peek_poke_disj (b x : Bytes) (off o l : Nat) (h : off + x.length ≤ b.l
       congr 1; omega
   · simp [hi]
 
+/-! ### memory windows -/
+
+theorem Mem.slice_add (m : Mem) (off a b : Nat) : m.slice off (a + b) = m.slice off a ++ m.slice (off + a) b := by
+  simp only [Mem.slice, List.range_add, List.map_append, List.map_map]
+  congr 1
+  apply List.map_congr_left
+  intro i _
+  simp [Nat.add_assoc]
+
+theorem length_slice (m : Mem) (off len : Nat) : (m.slice off len).length = len := by simp [Mem.slice]
+
+theorem slice_ofBytes (b : Bytes) (off len : Nat) (h : off + len ≤ b.length) :
+    (Mem.ofBytes b).slice off len = peek b off len := by
+  apply List.ext_getElem?
+  intro i
+  simp only [Mem.slice, Mem.ofBytes, peek, List.getElem?_map, List.getElem?_take, List.getElem?_drop]
+  by_cases hi : i < len
+  · have : off + i < b.length := by omega
+    simp [hi, List.getD, this]
+  · simp [hi]
+
+/-- a window that starts inside the file begins with the file bytes -/
+theorem slice_ofBytes_prefix (b : Bytes) (off l len : Nat) (h : off + l ≤ b.length) (hl : l ≤ len) :
+    ∃ rest, (Mem.ofBytes b).slice off len = peek b off l ++ rest := by
+  refine ⟨(Mem.ofBytes b).slice (off + l) (len - l), ?_⟩
+  have : len = l + (len - l) := by omega
+  rw [this, Mem.slice_add, slice_ofBytes _ _ _ h]
+  simp
+
+theorem peek_peek (b : Bytes) (a n o l : Nat) (h : o + l ≤ n) : peek (peek b a n) o l = peek b (a + o) l := by
+  apply List.ext_getElem?
+  intro i
+  simp only [peek, List.getElem?_take, List.getElem?_drop]
+  by_cases hi : i < l
+  · have : o + i < n := by omega
+    simp [hi, this, Nat.add_assoc]
+  · simp [hi]
+
+theorem get_ofBytes_of_peek (b : Bytes) (off x : Nat) (h : peek b off 1 = [x]) : (Mem.ofBytes b).get off = x := by
+  have : (peek b off 1)[0]? = some x := by rw [h]; rfl
+  simp only [peek, List.getElem?_take, List.getElem?_drop] at this
+  simp at this
+  simp [Mem.ofBytes, List.getD, this]
+
 /-- all writes fall inside `n` bytes and do not overlap each other -/
 def WfWrites (n : Nat) (ws : List (Nat × Bytes)) : Prop :=
   (∀ w ∈ ws, w.1 + w.2.length ≤ n) ∧
@@ -219,6 +263,27 @@ theorem sblkWrites_wf (s : SblkRec) (h : WfSblk s) : WfWrites Gen.SBLK_SZ (sblkW
         Gen.SOFF_PI0_U1, Gen.SOFF_N0_U4, Gen.SOFF_BPOS_U1_V2, Gen.SOFF_LK_V2, List.length_cons, List.length_nil, length_leEnc]
     omega
 
+/-- a 256-byte window that holds what `_sblk_sync_mm` wrote decodes to the node -/
+theorem decSblk_of_reads (w : Bytes) (s : SblkRec) (hlen : w.length = Gen.SBLK_SZ) (h : WfSblk s)
+    (rd : ∀ x ∈ sblkWrites s, peek w x.1 x.2.length = x.2) : decSblk w = some s := by
+  have f0 := rd (Gen.SOFF_FLAGS_U1, [s.flags]) (by simp [sblkWrites])
+  have f1 := rd (Gen.SOFF_LVL_U1, [s.lvl]) (by simp [sblkWrites])
+  have f2 := rd (Gen.SOFF_LKL_U1, [s.lkl]) (by simp [sblkWrites])
+  have f3 := rd (Gen.SOFF_PNUM_U1, [s.pnum]) (by simp [sblkWrites])
+  have f4 := rd (Gen.SOFF_P0_U4, leEnc 4 s.p0) (by simp [sblkWrites])
+  have f5 := rd (Gen.SOFF_KBLK_U4, leEnc 4 s.kblk) (by simp [sblkWrites])
+  have f6 := rd (Gen.SOFF_PI0_U1, s.piAll) (by simp [sblkWrites])
+  have f7 := rd (Gen.SOFF_N0_U4, encU4s s.n) (by simp [sblkWrites])
+  have f8 := rd (Gen.SOFF_BPOS_U1_V2, [s.bpos]) (by simp [sblkWrites])
+  have f9 := rd (Gen.SOFF_LK_V2, s.lk) (by simp [sblkWrites])
+  simp only [List.length_cons, List.length_nil, Nat.zero_add, length_leEnc, h.pi_len, h.lk_len, length_encU4s, h.n_len] at f0 f1 f2 f3 f4 f5 f6 f7 f8 f9
+  have hl := h.lvl; have hk := h.lkl; have hp := h.pnum
+  have hn := decU4s_encU4s s.n [] h.n
+  rw [List.append_nil, h.n_len] at hn
+  simp only [decSblk, byte, hlen, f0, f1, f2, f3, f4, f5, f6, f7, f8, f9, leDec_single, Nat.lt_irrefl, if_false,
+    leDec_leEnc4 _ h.p0, leDec_leEnc4 _ h.kblk, hn]
+  rw [if_neg (by omega)]
+
 theorem vnumAt_enc (b pre rest : Bytes) (n : Nat) (hb : b = pre ++ (Vnum.enc n ++ rest))
     (hn : (Vnum.enc n).length ≤ Gen.IW_VNUMBUFSZ) : vnumAt b pre.length = some (n, (Vnum.enc n).length) := by
   subst hb
@@ -280,6 +345,44 @@ theorem wfKvIndex_ofSlots (szpow : Nat) (sl : List (Nat × Nat)) (h1 : szpow < 2
   simp only [KvIndex.ofSlots, h2, Gen.IW_VNUMBUFSZ, Gen.KVBLK_IDXNUM] at *
   omega
 
+/-- `_kvblk_at_mm` on what `_kvblk_sync_mm` wrote, whatever follows the index -/
+theorem decKvIndexE_enc (k : KvIndex) (rest : Bytes) (h : WfKvIndex k) :
+    decKvIndexE (encKvIndex k ++ rest) = .ok k := by
+  have hd := decSlotsE_enc k.slots h.slots (encKvIndex k ++ rest) ([k.szpow] ++ leEnc 2 k.idxsz) rest []
+    (by simp [encKvIndex, List.append_assoc])
+  rw [h.slots_len] at hd
+  have hpre : ([k.szpow] ++ leEnc 2 k.idxsz).length = Gen.KVBLK_HDRSZ := by simp [Gen.KVBLK_HDRSZ]
+  rw [hpre] at hd
+  have h0 : peek (encKvIndex k ++ rest) KOFF_SZPOW 1 = [k.szpow] := by simp [peek, encKvIndex, KOFF_SZPOW]
+  have h1 : peek (encKvIndex k ++ rest) KOFF_IDXSZ 2 = leEnc 2 k.idxsz := by
+    simp only [peek, encKvIndex, KOFF_IDXSZ, List.append_assoc, List.cons_append, List.nil_append, List.drop_succ_cons, List.drop_zero]
+    rw [List.take_append_of_le_length (by simp), List.take_of_length_le (by simp)]
+  simp only [decKvIndexE, byte, h0, h1, hd, leDec_single, leDec_leEnc2 _ h.idxsz_lt]
+  rw [if_neg (by have := h.idxsz; simp; omega)]
+  simp
+
+
+/-- a record read with its slot length, whatever follows it -/
+theorem decKvE_enc (k v rest : Bytes) (hk : k.length < 2 ^ 63) :
+    decKvE (encKv k v ++ rest) (encKv k v).length = .ok (k, v) := by
+  have h1 := vnumAt_enc (encKv k v ++ rest) [] (k ++ v ++ rest) k.length (by simp [encKv, List.append_assoc])
+    (enc_length_le_buf _ hk)
+  simp only [List.length_nil] at h1
+  simp only [decKvE, h1]
+  have hl : (encKv k v).length = (Vnum.enc k.length).length + k.length + v.length := by simp [encKv]; omega
+  rw [if_neg (by omega)]
+  have e1 : peek (encKv k v ++ rest) (Vnum.enc k.length).length k.length = k := by
+    simp only [peek, encKv, List.append_assoc]
+    rw [List.drop_left', List.take_left'] <;> rfl
+  have e2 : peek (encKv k v ++ rest) ((Vnum.enc k.length).length + k.length)
+      ((encKv k v).length - (Vnum.enc k.length).length - k.length) = v := by
+    have : (encKv k v).length - (Vnum.enc k.length).length - k.length = v.length := by omega
+    rw [this]
+    simp only [peek, encKv, List.append_assoc]
+    rw [← List.length_append, ← List.append_assoc, List.drop_left', List.take_left'] <;> rfl
+  simp [e1, e2]
+
+
 structure WfDbHdr (d : DbHdr) : Prop where
   flags : d.flags < 256
   id : d.id < 2 ^ 32
@@ -307,6 +410,39 @@ theorem dbHdrWrites_wf (d : DbHdr) (h : WfDbHdr d) : WfWrites Gen.DOFF_END (dbHd
       Gen.DOFF_NEXTDB_U4, Gen.DOFF_P0_U4, Gen.DOFF_N0_U4, Gen.DOFF_C0_U4, Gen.DOFF_METABLK_U4, Gen.DOFF_METABLKN_U4,
       List.length_cons, List.length_nil, length_leEnc]
     omega
+
+/-- `_db_at` on what `_db_save` and the database branch of `_sblk_sync_mm` wrote, over any old content -/
+theorem dbhdr_dec_enc_over (old : Bytes) (d : DbHdr) (hold : old.length = Gen.DOFF_END) (h : WfDbHdr d) :
+    decDbHdr (encDbHdrOver old d) = some d := by
+  have hw := dbHdrWrites_wf d h
+  rw [← hold] at hw
+  have hlen : (encDbHdrOver old d).length = Gen.DOFF_END := by
+    rw [encDbHdrOver, length_pokes _ _ hw.1, hold]
+  have rd : ∀ w ∈ dbHdrWrites d, peek (encDbHdrOver old d) w.1 w.2.length = w.2 := peek_pokes_mem old _ hw
+  have f0 := rd (Gen.DOFF_MAGIC_U4, leEnc 4 Gen.IWDB_MAGIC) (by simp [dbHdrWrites])
+  have f1 := rd (Gen.DOFF_DBFLG_U1, [d.flags]) (by simp [dbHdrWrites])
+  have f2 := rd (Gen.DOFF_DBID_U4, leEnc 4 d.id) (by simp [dbHdrWrites])
+  have f3 := rd (Gen.DOFF_NEXTDB_U4, leEnc 4 d.next) (by simp [dbHdrWrites])
+  have f4 := rd (Gen.DOFF_P0_U4, leEnc 4 d.p0) (by simp [dbHdrWrites])
+  have f5 := rd (Gen.DOFF_N0_U4, encU4s d.n) (by simp [dbHdrWrites])
+  have f6 := rd (Gen.DOFF_C0_U4, encU4s d.c) (by simp [dbHdrWrites])
+  have f7 := rd (Gen.DOFF_METABLK_U4, leEnc 4 d.metaBlk) (by simp [dbHdrWrites])
+  have f8 := rd (Gen.DOFF_METABLKN_U4, leEnc 4 d.metaBlkn) (by simp [dbHdrWrites])
+  simp only [List.length_cons, List.length_nil, Nat.zero_add, length_leEnc, length_encU4s, h.n_len, h.c_len] at f0 f1 f2 f3 f4 f5 f6 f7 f8
+  have hn := decU4s_encU4s d.n [] h.n
+  have hc := decU4s_encU4s d.c [] h.c
+  rw [List.append_nil, h.n_len] at hn
+  rw [List.append_nil, h.c_len] at hc
+  have hm : leDec (leEnc 4 Gen.IWDB_MAGIC) = Gen.IWDB_MAGIC := leDec_leEnc4 _ (by decide)
+  simp only [decDbHdr, byte, hlen, f0, f1, f2, f3, f4, f5, f6, f7, f8, leDec_single, Nat.lt_irrefl, if_false,
+    leDec_leEnc4 _ h.id, leDec_leEnc4 _ h.next, leDec_leEnc4 _ h.p0, leDec_leEnc4 _ h.metaBlk, leDec_leEnc4 _ h.metaBlkn,
+    hn, hc, hm, ne_eq, not_true_eq_false]
+
+/-- the field widths of the allocator header add up to the generated header size -/
+theorem fsm_layout_total : FOFF_END = Gen.IWFSM_CUSTOM_HDR_DATA_OFFSET := by decide
+
+theorem dbhdr_dec_enc (d : DbHdr) (h : WfDbHdr d) : decDbHdr (encDbHdr d) = some d :=
+  dbhdr_dec_enc_over _ d (by simp [zeros]) h
 
 structure WfFsmHdr (f : FsmHdr) : Prop where
   bpow : f.bpow < 256
